@@ -65,6 +65,7 @@ type concRun struct {
 	id     int64
 	wire   []wireLine
 	wmu    sync.Mutex
+	sendMu sync.Mutex
 	ctxSeq int64
 
 	sentMu sync.Mutex
@@ -146,7 +147,10 @@ func (r *concRun) peerLoop(rng *rand.Rand) {
 		if f.Masked {
 			rng.Read(f.Key[:])
 		}
+		r.sendMu.Lock() // announcement and bytes of one frame stay together: peerLoop and peerScript both send
+		ws.LogPeerSent(r.c, f)
 		r.raw.Out.Write(f.Encode())
+		r.sendMu.Unlock()
 	}
 	for {
 		n, err := r.raw.In.Read(tmp)
@@ -243,7 +247,10 @@ func (r *concRun) peerScript(rng *rand.Rand, stop <-chan struct{}) {
 		if f.Masked {
 			rng.Read(f.Key[:])
 		}
+		r.sendMu.Lock() // announcement and bytes of one frame stay together: peerLoop and peerScript both send
+		ws.LogPeerSent(r.c, f)
 		r.raw.Out.Write(f.Encode())
+		r.sendMu.Unlock()
 	}
 	n := 2 + rng.Intn(6)
 	for i := 0; i < n; i++ {
@@ -310,6 +317,7 @@ func runConc(cfg concCfg, rep *Report, tr *ws.Tracer) *concRun {
 		role = "client"
 	}
 	r.logWire(wireLine{Ev: "WireReset", Role: role, Flate: ws.Mode(cfg.Mode).Flate()})
+	ws.LogPeerScripted(c)
 	raw.In.Cap = cfg.WriteCap
 	raw.Out.ChunkFn = func() int { return 1 + rand.Intn(64) }
 	go r.peerLoop(rand.New(rand.NewSource(cfg.Seed + 1)))
